@@ -137,6 +137,56 @@ static void run_set(int mask) {
     aws_small_block_allocator_destroy(S);
     VS_CHECK(ga.live_blocks == 0, "leak", "parent balance %llu after destroy", (unsigned long long)ga.live_blocks);
 }
+/* Barrier scenario: both threads allocate from the SAME (so far pageless) size class at the same time, then everybody stops;
+ * with all blocks live and nobody inside the allocator the accounting must be exact, not merely bounded (added after a
+ * seeded change that dropped the bin lock around the page allocation and lost one thread's page) */
+static pthread_mutex_t bm = PTHREAD_MUTEX_INITIALIZER;
+static pthread_cond_t bc = PTHREAD_COND_INITIALIZER;
+static int arrived, go;
+static size_t bar_req[2] = {32, 17};
+static void *tb(void *a) {
+    int me = (int)(intptr_t)a;
+    uint8_t *p = aws_mem_acquire(S, bar_req[me]);
+    int s = reg(p, bar_req[me], (uint8_t)(0x90 + me));
+    uint8_t *q = aws_mem_acquire(S, 500);
+    int s2 = reg(q, 500, (uint8_t)(0xA0 + me));
+    pthread_mutex_lock(&bm);
+    arrived++;
+    pthread_cond_broadcast(&bc);
+    while (!go) pthread_cond_wait(&bc, &bm);
+    pthread_mutex_unlock(&bm);
+    verify_all("after the barrier");
+    unreg(s);
+    aws_mem_release(S, p);
+    unreg(s2);
+    aws_mem_release(S, q);
+    return NULL;
+}
+static void abar(void) {
+    galloc_reset();
+    struct aws_allocator *parent = galloc_get(0, 0);
+    memset(live, 0, sizeof(live));
+    arrived = go = 0;
+    S = aws_small_block_allocator_new(parent, true);
+    pthread_t th[2];
+    for (int i = 0; i < 2; ++i) pthread_create(&th[i], NULL, tb, (void *)(intptr_t)i);
+    pthread_mutex_lock(&bm);
+    while (arrived < 2) pthread_cond_wait(&bc, &bm);
+    pthread_mutex_unlock(&bm);
+    size_t act = aws_small_block_allocator_bytes_active(S), res = aws_small_block_allocator_bytes_reserved(S), page = aws_small_block_allocator_page_size(S);
+    VS_CHECK(act == 32 + 32 + 512 + 512, "bytes-active-at-barrier", "two 32-class and two 512-class blocks are live and nobody is inside the allocator, bytes_active=%zu (expected 1088)", act);
+    VS_CHECK(res >= act && res % page == 0 && res <= 4 * page, "bytes-reserved-at-barrier", "bytes_reserved=%zu with bytes_active=%zu (page %zu)", res, act, page);
+    pthread_mutex_lock(&bm);
+    go = 1;
+    pthread_cond_broadcast(&bc);
+    pthread_mutex_unlock(&bm);
+    for (int i = 0; i < 2; ++i) pthread_join(th[i], NULL);
+    VS_CHECK(aws_small_block_allocator_bytes_active(S) == 0, "bytes-active-at-quiescence", "everything released, bytes_active=%zu", aws_small_block_allocator_bytes_active(S));
+    VS_CHECK(aws_small_block_allocator_bytes_reserved(S) <= 5 * page, "reserved-at-quiescence", "everything released, bytes_reserved=%zu", aws_small_block_allocator_bytes_reserved(S));
+    aws_small_block_allocator_destroy(S);
+    VS_CHECK(ga.live_blocks == 0, "leak", "parent balance %llu after destroy", (unsigned long long)ga.live_blocks);
+}
+
 static void a12(void) { run_set(1 | 2); }
 static void a13(void) { run_set(1 | 4); }
 static void a24(void) { run_set(2 | 8); }
@@ -151,6 +201,7 @@ int main(int argc, char **argv) {
         {.name = "SBA-T1T3-realloc-across-classes", .run = a13, .bound_quick = 4, .bound_thorough = 6},
         {.name = "SBA-T2T4-page-turnover", .run = a24, .bound_quick = 4, .bound_thorough = 6},
         {.name = "SBA-T4T1", .run = a44, .bound_quick = 4, .bound_thorough = 6},
+        {.name = "SBA-barrier-exact-accounting", .run = abar, .bound_quick = 2, .bound_thorough = 4},
         {.name = "SBA-T1T2T3", .run = a123, .bound_quick = 2, .bound_thorough = 3},
     };
     return vsx_main(sc, (int)(sizeof(sc) / sizeof(sc[0])));
